@@ -325,6 +325,13 @@ namespace {
         Rng r(mix_seed(ctx.seed, 50));
         int nparties = (int) ctx.params.set("c07.parties", r.range(2, 6));
         int64_t os_mask = ctx.params.set("c07.os_mask", OsOk && r.chance(1, 2) ? (int64_t) r.below(64) : 0);
+        // A user lock that blocks the OS thread (std::mutex) belongs to plain OS threads: condition_variable_any
+        // takes its internal spinlock while it still holds the user lock and a pika task *yields* when that
+        // spinlock is contended; a second task that then blocks its worker in std::mutex::lock() can keep the
+        // owner from ever running again (seen once in 33 000 thorough runs: three workers blocked on the
+        // mutex, its owner pending). That is the usual hazard of OS locks held across a task switch, not a
+        // property of the condition variable: all parties of this sub-workload are OS threads.
+        if (std::is_same_v<Mutex, std::mutex>) os_mask = ctx.params.set("c07.os_mask", 63);
         if (!ctx.program_from_replay) ctx.program = gen(ctx, nparties, HasStop);
         sim_config sc = draw_sim_config(ctx, 60000, FAULT_STALL | FAULT_CLOCKJUMP | FAULT_TRYFAIL | FAULT_SPURIOUS);
         begin_sim(ctx, sc);
